@@ -130,6 +130,21 @@ class GenObj:
         self.started = False
 
 
+class Deferred:
+    """uninterpreted application f(args): stands for the result of a contracted function on these arguments
+    without evaluating it; two are equal when the functions are the same and the arguments are equal."""
+
+    def __init__(self, fn, *args):
+        self.fn = fn
+        self.args = args
+
+    def __hash__(self):
+        return id(self)
+
+    def __repr__(self):
+        return "Deferred(%s, %r)" % (self.fn, self.args)
+
+
 def class_of(v):
     if isinstance(v, SObj):
         return v.cls
@@ -144,6 +159,12 @@ def values_equal(a, b):
     """Structural equality (truth value, possibly symbolic) used to compare the
     outcome of the real body with the outcome of the spec function."""
     from .spec import And, AnyOf
+    if isinstance(a, Deferred) or isinstance(b, Deferred):
+        if not (isinstance(a, Deferred) and isinstance(b, Deferred)):
+            return False
+        if a.fn != b.fn or len(a.args) != len(b.args):
+            return False
+        return And([values_equal(x, y) for x, y in zip(a.args, b.args)])
     if isinstance(a, AnyOf) or isinstance(b, AnyOf):
         any_, other = (a, b) if isinstance(a, AnyOf) else (b, a)
         if isinstance(other, AnyOf):
